@@ -15,7 +15,9 @@ Record case := mk_case {
   c_ref_str : bytes;                           (* its String() ("" when no ref) *)
   c_expose : option (bytes * bytes);           (* PkgImportPathAndExpose; None = panic *)
   c_id : option bytes;                         (* snippet.ID(s) rendered through a SnippetWriter; None = panic *)
-  c_adds : list bytes                          (* package paths handed to tracker.AddType, in call order *)
+  c_adds : list bytes;                         (* package paths handed to tracker.AddType, in call order (this render only) *)
+  c_pre : list bytes                           (* INPUT: foreign package paths of the references rendered EARLIER through
+                                                  the same writer (same tracker); [] = this is the first render *)
 }.
 
 Fixpoint tref_eqb (a b : tref) : bool :=
@@ -138,7 +140,9 @@ Definition holds_render (c : case) (t : tref) : bool :=
       bytes_eqb out
         ((if bytes_eqb (t_path t) self then [] else assoc (t_path t) names ++ [dot])
            ++ gram (map_paths (ren self names) (TRef [] (t_name t) (t_args t))))
-      && same_set (map fst names) want
+      (* the tracker holds exactly the packages of this reference, next to those the earlier renders of the same
+         writer had to register *)
+      && same_set (map fst names) (want ++ c_pre c)
       && same_set (c_adds c) want
       && forallb (fun q => negb (is_nil (assoc q names))) want
   end.
